@@ -55,6 +55,8 @@ type anEvent struct {
 	Tok   string `json:"tok"`
 	Claim string `json:"claim"`
 	Bad   string `json:"bad"` // concrete malformation when !Ok (not part of the abstract event)
+	Plen  int    `json:"plen"` // concrete payload length: 0 = the usual one of the kind, -1 = EMPTY payload, n = exactly n bytes
+	Pid   int    `json:"pid"`  // first payload byte of kind "other" (0: 3); transfers always start with 1, attestations with 2
 	Tgt   int    `json:"tgt"` // concrete target chain (0: 2 + id%2); sequences are 1000 + id, i.e. increasing in emission order per target chain
 }
 
@@ -234,11 +236,30 @@ func anVal(tpe string, v interface{}) map[string]interface{} {
 }
 
 // payload of an event (deterministic per event id)
+// payload of an event.  ORACLE MAPPING: kind "transfer" = first byte 1 WHATEVER the length (the contract builds
+// 101 + size(recipient) bytes, any recipient size; Plen picks the length), kind "attest" = first byte 2 (claim "badlen":
+// first byte 2 but not 100 bytes), kind "other" = any other first byte or the EMPTY payload (Plen = -1).
 func (nd *anNode) payload(e *anEvent) []byte {
+	if e.Plen < 0 {
+		return []byte{}
+	}
+	fill := func(first byte, n int) []byte {
+		return append([]byte{first}, vhExpand(fmt.Sprint("pl|", nd.sc.ID, "|", e.ID), n-1)...)
+	}
 	switch e.Kind {
 	case "transfer":
-		return append([]byte{1}, vhExpand(fmt.Sprint("pl|", nd.sc.ID, "|", e.ID), 132)...)
+		if e.Plen > 0 {
+			return fill(1, e.Plen)
+		}
+		return fill(1, 133)
 	case "attest":
+		if e.Claim == "badlen" {
+			n := e.Plen
+			if n <= 0 || n == 100 {
+				n = 1
+			}
+			return fill(2, n)
+		}
 		m, ok := anMetas[e.Claim]
 		if !ok {
 			m = anMetas["m1"]
@@ -255,7 +276,14 @@ func (nd *anNode) payload(e *anEvent) []byte {
 		p = append(p, anPad32(m.name)...)
 		return p
 	}
-	return append([]byte{3}, vhExpand(fmt.Sprint("pl|", nd.sc.ID, "|", e.ID), 40)...)
+	first := byte(3)
+	if e.Pid != 0 && e.Pid != 1 && e.Pid != 2 {
+		first = byte(e.Pid)
+	}
+	if e.Plen > 0 {
+		return fill(first, e.Plen)
+	}
+	return fill(first, 41)
 }
 
 func anTarget(e *anEvent) int {
